@@ -91,6 +91,12 @@ META["C17"] = dict(
   note="ow-single is built from the working tree through -overlay into the harness module (no change to /repo).",
   technique="differential property-based testing (rapid) + grammar-based fuzzing of a child process")
 
+META["C09"] = dict(
+  text="Translation validation of the finite set of generated files: each is regenerated from the current templates, directives and spec blocks in a scratch copy and compared byte-for-byte (complete enumeration, exhaustive: true), the catalogue and Description() are compared with an independent YAML reading of every spec block, and generated search varies the generator invocation (subset and order of inputs) to show the output is a function of the spec alone.",
+  design_ref="DESIGN.md section 4, C09",
+  note="Trusted: rsync/diff of files, gopkg.in/yaml.v2 as the independent spec reader, genny at the pinned version from the module cache.",
+  technique="exhaustive regeneration and byte comparison (translation validation) + property-based testing (rapid) of generator invocation invariance")
+
 import os, sys
 sys.path.insert(0, os.path.dirname(os.path.abspath(__file__)))
 from checks_config import CHECKS
